@@ -62,9 +62,19 @@ def header_layer(res, binary, tier, seed, prop):
     rep = run_harness(binary, ["lzma", "--property", prop, "--seed", seed, "--header-export", mc["out"]], "%s_hdr" % prop)
     res.add_harness(rep, "every header case of MC_LzmaHeader instantiated with a payload coded under TLC's lc/lp/pb -> one-shot and Stream (one cut inside the header)")
 
+def entry_points_layer(res, binary, tier, seed, prop):
+    """EntryPoints.tla: the end / size rules stated declaratively over classes (SizeExact, OverrideRule, MarkerEnds,
+    TrailIgnored, OptionsAgree, Reach as assumptions of the model), every case exported and replayed through all
+    entry points (plain, oneshot, building blocks, Stream in one write, Stream bytewise)."""
+    mc = run_tlc("MC_EntryPoints", "MC_EntryPoints.cfg", "%s_ep" % prop, workers=2, timeout=300, coverage=False)
+    res.add_tlc(mc, "end / size rules over classes of inputs: SizeExact, OverrideRule, MarkerEnds, TrailIgnored, OptionsAgree, Reach; export of every case with its verdict class and the entry points it applies to")
+    rep = run_harness(binary, ["lzma", "--property", prop, "--seed", seed, "--entry-points-export", mc["out"], "--ep-rounds", tq(tier, 1, 40)], "%s_ep" % prop)
+    res.add_harness(rep, "every case of MC_EntryPoints x payloads ending in a copy (3 in quick, 42 in thorough; all props) -> lzma_decompress, lzma_decompress_with_options, LzmaParams::read_header + LzmaDecoder, Stream (one write / bytewise): verdict, bytes, input consumed")
+
 def plan_C08(res, binary, hooked, tier, seed):
     lzma_layer(res, binary, hooked, tier, seed, "C08", ["--options-matrix", tq(tier, 24, 2000)])
     header_layer(res, binary, tier, seed, "C08")
+    entry_points_layer(res, binary, tier, seed, "C08")
     return ("behaviours of MC_LzmaDecoder ending by size / marker / overshoot / truncation, replayed on the raw decoder; plus, on the one-shot and streaming APIs, "
             "programs x {ReadFromHeader, ReadHeaderButUseProvided(None|n), UseProvided(None|n)} x header size field {all-ones, true, true+1, true-1, 0, 2^40} x marker present/absent x n in {true, +1, -1, 0} "
             "with the bytes consumed (13/13/5 header bytes + payload) compared on success; distinct = distinct (bytes, options)"), TRUSTED_LZMA
@@ -279,6 +289,7 @@ def plan_C11(res, binary, hooked, tier, seed):
     rep = run_harness(binary, ["reader", "--mode", "c11", "--property", "C11", "--seed", seed, "--inputs", tq(tier, 24, 1500)], "C11_rd")
     res.add_harness(rep, "size-bounded LZMA payloads (13- and 5-byte headers) and LZMA2 streams followed by 0/1/5/64 arbitrary bytes, read through slice, Cursor, scripted sources and BufReader(1/5/4096): must succeed with unchanged output and leave the reader exactly at the end of the payload (position predicted by the reference decoder's lock-step count); marker-terminated LZMA and XZ with trailing bytes must fail")
     lzma_layer(res, binary, hooked, tier, seed, "C11", [])
+    entry_points_layer(res, binary, tier, seed, "C11")
     lzma2_layer(res, binary, hooked, tier, seed, "C11", tq(tier, 20, 400))
     return ("payloads x trailing bytes x reader kinds, plus every successful behaviour of MC_LzmaDecoder / MC_Lzma2 replayed with the consumed-bytes comparison switched on; distinct = distinct (bytes, reader)"), TRUSTED_L2 + ["Reader.tla for the helper loops; the byte position of the end of a payload comes from the harness range coder kernel (decoder consumption = 5 + number of normalisations = encoder emission), which is arithmetic and outside TLA+ (DESIGN.md section 8)"]
 
